@@ -263,7 +263,10 @@ class CallNodeSerializer(Serializer):
             "value_hash": call_node.value_hash,
             "timestamp": serialize_timestamp(call_node.timestamp),
             "args": args,
-            "children": [edge.child_id for edge in call_node.child_edges],
+            "children": [
+                edge.child_id
+                for edge in sorted(call_node.child_edges, key=lambda edge: edge.call_order)
+            ],
         }
 
     def serialize_query(self, query: Query) -> Iterator[dict]:
